@@ -337,7 +337,9 @@ def _load_yaml_or_json(data: bytes, content_type: Optional[str]) -> Union[dict[s
         try:
             yaml = YAML(typ="safe")
             return yaml.load(data)
-        except (YAMLError, TypeError) as err:  # ruamel raises TypeError for unhashable (mapping / sequence) keys
+        except (YAMLError, TypeError, ValueError) as err:
+            # ruamel raises TypeError for unhashable (mapping / sequence) keys and ValueError for scalars it resolves
+            # to a date / timestamp / number but cannot construct (2024-01-80, !!binary junk)
             return GeneratorError(header=f"Invalid YAML from provided source: {err}")
 
 
